@@ -165,6 +165,7 @@ def run(tier, seed=0, shard=(0, 1)):
         bubbles(rep, D, 'monoidal')
         semantic(rep)
         tensor_values(rep)
+        cqmap_values(rep)
     for d in D[:3] + R[:3]:
         rep.sample(repr(d))
     if shard[0] == 3 % shard[1]:
@@ -201,6 +202,28 @@ def tensor_values(rep):
                 for w in vals:
                     if u.cod == w.dom:
                         eq(rep, 'tensor_value.then.assoc', lambda: (t >> u) >> w, lambda: t >> (u >> w), ru)
+
+
+def cqmap_values(rep):
+    """the dagger laws on classical-quantum maps (the values mixed circuits evaluate to), with different domain and codomain"""
+    from discopy.quantum.cqmap import CQMap, CQ, C, Q
+    from discopy.quantum import circuit as qc, gates
+    from discopy.tensor import Dim
+    vals = [CQMap.measure(Dim(2)), CQMap.encode(Dim(2)), CQMap.discard(Q(Dim(2))), CQMap.discard(C(Dim(2)) @ Q(Dim(2))),
+            qc.Measure().eval(), (gates.Ket(0) >> gates.H >> qc.Measure(destructive=False)).eval(),
+            (gates.H @ qc.Id(1) >> gates.CX >> qc.Measure() @ qc.Discard()).eval(), CQMap.id(C(Dim(2)) @ Q(Dim(2))),
+            qc.Encode().eval()]
+    for m in vals:
+        rm = repr(m)[:140]
+        rep.case(('cqmap value', rm), nontrivial=True)
+        eq(rep, 'cqmap_value.dagger.types', lambda: (m.dagger().dom, m.dagger().cod), lambda: (m.cod, m.dom), rm)
+        eq(rep, 'cqmap_value.dagger.involutive', lambda: m.dagger().dagger(), lambda: m, rm)
+        eq(rep, 'cqmap_value.dagger.involutive.types', lambda: (m.dagger().dagger().dom, m.dagger().dagger().cod), lambda: (m.dom, m.cod), rm)
+        for u in vals:
+            if m.cod == u.dom:
+                ru = rm + ' ; ' + repr(u)[:140]
+                eq(rep, 'cqmap_value.dagger.contravariant', lambda: (m >> u).dagger(), lambda: u.dagger() >> m.dagger(), ru)
+                eq(rep, 'cqmap_value.dagger.contravariant.types', lambda: ((m >> u).dagger().dom, (m >> u).dagger().cod), lambda: (u.cod, m.dom), ru)
 
 
 def semantic(rep):
